@@ -396,7 +396,7 @@ def r7(ctx):
         t = brk[0].test
         try:
             ncase, bad = check_pred(t, lambda e: e['max'] and e['n'] >= e['m'], symbols=['n', 'm'],
-                                    atom_name=lambda x: {'processedReadPairs': 'n', 'maxReadPairs': 'm', 'maxReadPairs is not None': 'max'}.get(src(x)))
+                                    atom_name=lambda x: {'processedReadPairs': 'n', 'maxReadPairs': 'm', 'maxReadPairs is not None': 'max'}.get(src(x)), extra_bools=['max'])
             ctx.emit('C01-R7', not bad, LOADER, brk[0], f'cut-off predicate `{src(t)}` == (limit given and processed >= limit) over {ncase} cases' if not bad else f'cut-off predicate differs: {bad[0]}', key='cutoff-predicate')
         except AnalysisError as ex:
             ctx.emit('C01-R7', False, LOADER, brk[0], f'cut-off predicate not interpretable: {ex}', key='cutoff-predicate', undecided=True)
